@@ -2,6 +2,11 @@ NOTES = ("All checks: ./check <ID> --tier quick|thorough, VERIF_SEED respected, 
          "fix: commits in /repo are listed in known_findings.json as fixed entries.")
 NOT_APPLICABLE = {}
 CHECKS = {
+ "C10": {
+  "technique": "Hypothesis property-based testing of generated containers mixing managed and user-controlled expressions; oracle = textual tracing of uniquely tagged user-controlled segments plus a value-level alignment model for the cases the property decides",
+  "text": "Containers (list, tuple, dict, dataclass/attrs/namedtuple calls, nested) mixing managed elements with Is(), f-strings, inner snapshots, dirty-equals stand-ins and star-expressions are run with every approved set; each user-controlled segment must appear verbatim at most once and in order, must survive under surviving keys, in the equal common prefix/suffix and under the replacement rule, star containers keep their text, managed siblings are repaired. Exploration.",
+  "note": "dirty-equals is replaced by a 30-line stand-in package (only DirtyEquals is consulted by the code under test); tie-breaks of the alignment are not modelled, only the decidable cases are demanded",
+ },
  "C20": {
   "technique": "Hypothesis property-based testing with an independent formatter oracle (the harness invokes black with a Mode it builds itself from the generated pyproject options) and an idempotence side-check that attributes instabilities to the formatter",
   "text": "Generated clean files under generated [tool.black] options receive change sets that force re-wrapping; the result must be a fixed point of black under the same options, unless black itself is not idempotent on the text handed to the whole-file step (captured), which is counted separately. Unclean files must not be re-formatted as a whole (bytes outside all arguments unchanged). Exploration.",
